@@ -49,3 +49,29 @@ Definition C18_timeval_ok (n sec usec : Z) : bool :=
 Definition C18_freq_ok (x back : Z) : bool :=
   if (Z.abs x <=? 32768000) then Z.abs (back - x) <=? 1 else true.
 Definition C18_interval_ok (i d : Z) : bool := (d * 65536 <=? i) && (i <? (d + 1) * 65536).
+
+(* "the drift allowance is proportional to the interval": for a configured drift of drift_ns
+   ns per second (> 0) and an interval d >= 0 whose true allowance drift_ns*d/10^9 stays below
+   2^62 ns, the reported allowance D is non-negative, zero for the empty interval, and within
+   1 ns + 2^-48 (relative) of drift_ns*d/10^9 -- the room a float64 evaluation and the final
+   conversion to whole nanoseconds need.  Stated on drift_ns*d = 10^9 * (true allowance) so that
+   everything is integer. *)
+Definition C18_drift_range (drift_ns d : Z) : bool :=
+  (0 <? drift_ns) && (0 <=? d) && (drift_ns * d <? 2^62 * 1000000000).
+Definition C18_drift_ok (drift_ns d D : Z) : bool :=
+  if C18_drift_range drift_ns d then
+    let q := drift_ns * d in
+    (0 <=? D) && (if d =? 0 then D =? 0 else true) &&
+    (Z.abs (D * 1000000000 - q) * 2^48 <=? 1000000000 * 2^48 + q)
+  else true.
+
+(* proportionality without reference to the configured constant: the allowances D1, D2, D12
+   reported for intervals d1, d2 and d1 + d2 are monotone (a longer interval never gets a
+   smaller allowance) and additive up to the three conversions to whole nanoseconds (3 ns) and
+   2^-46 relative.  (d1 + d2 within int64: the interval is a time.Duration.) *)
+Definition C18_drift_add_ok (drift_ns d1 d2 D1 D2 D12 : Z) : bool :=
+  if (0 <=? d1) && (0 <=? d2) && (d1 + d2 <=? max_i64) && C18_drift_range drift_ns (d1 + d2) then
+    (0 <=? D1) && (0 <=? D2) && (D1 <=? D12) && (D2 <=? D12) &&
+    (if d1 <=? d2 then D1 <=? D2 else D2 <=? D1) &&
+    (Z.abs (D12 - D1 - D2) * 2^46 <=? 3 * 2^46 + D12 + 1)
+  else true.
